@@ -270,9 +270,16 @@ should_enable(int have[3], struct model_spec *spec, struct thread *t)
 	}
 
 	/* May not have the current model */
-	const char *req_version = json_object_get_string(require, spec->name);
-	if (req_version == NULL)
+	JSON_Value *req_value = json_object_get_value(require, spec->name);
+	if (req_value == NULL)
 		return 0;
+
+	const char *req_version = json_value_get_string(req_value);
+	if (req_version == NULL) {
+		err("version required for model %s is not a string in thread %s",
+				spec->name, t->id);
+		return -1;
+	}
 
 	int want[3];
 	if (version_parse(req_version, want) != 0) {
